@@ -23,7 +23,8 @@ EXPLANATION = (
     " R1 also evaluates the file-level format guard under the scenarios file_format = FileFormat.PARQUET and 'parquet' (the footer comparison must be reached) and rejects a signature returned as a dict (order-insensitive)."
     ' (R6) bounds written by an accepted append are lossless (C13.R4); (R7) create_table / load_table keep no handle registry and return the Table constructed in the call.'
     ' (R8) pre-built files must exist at append and at commit time; (R9) the record validator raises for unknown fields and for missing / None required fields.'
-    " (R12) a value the declared type cannot represent is rejected: the strict validator raises for a float with a fractional part in an int / long / date / time / timestamp field (pyarrow's from_pylist would truncate it), decided by scenario evaluation of the validator's branches; every from_pylist / write_records of write_data_file runs after that validator for a non-empty batch [D18, fixed].")
+    " (R12) a value the declared type cannot represent is rejected: the strict validator raises for a float with a fractional part in an int / long / date / time / timestamp field (pyarrow's from_pylist would truncate it), decided by scenario evaluation of the validator's branches; every from_pylist / write_records of write_data_file runs after that validator for a non-empty batch [D18, fixed]."
+    ' (R13) one conversion route: from_pylist(records, schema=...) only - no cast / schema-less rebuild in the write path.')
 NOT_DECIDED = ("value-level round trip through Arrow/Parquet for every type and value class; 'mis-filter' in general; what "
                "pyarrow accepts for a declared type")
 
@@ -51,6 +52,7 @@ def check(ctx: Ctx) -> None:
     appended_files_must_exist(ctx)
     strict_validation_rejects(ctx)
     inexact_values_rejected(ctx)
+    single_conversion_route(ctx)
     from .c04 import r1 as c04_r1
     ctx.shared(c04_r1, "C04.R1", "C11.R10", "a conflicting pointer write stays a conflict (it is not re-issued against a newer ETag)")
     # "no accepted append can make later scans fail": the range reader is sized by the object's real length, not by the size an
@@ -281,6 +283,35 @@ def inexact_values_rejected(ctx: Ctx, rid: str = "C11.R12") -> None:
         if caller.qname != wd.qname and not judged_in_callers(ctx, caller):
             ctx.ob(rid, caller, "records reach the writer only through write_data_file", n, False,
                    "DataFileWriter.write_records converts with from_pylist without the strict validator")
+
+
+def single_conversion_route(ctx: Ctx, rid: str = "C11.R13") -> None:
+    ctx.rule(rid, "records become Arrow data by ONE route: pa.Table.from_pylist(records, schema=<the table's Arrow schema>), which "
+             "refuses a value of the wrong Python type; the write path (write_data_file with its helpers, DataFileWriter."
+             "write_records) contains no type-coercing route next to it - no `.cast(...)`, no schema-less pa.array / from_pydict / "
+             "from_arrays rebuild - because a checked cast still turns '42' into 42, True into 1 and 1 into True", 2)
+    coercers = ("cast", "from_arrays", "from_pydict", "from_pandas")
+    n = 0
+    for q in ("data_operations.DataFileManager.write_data_file", "data_operations.DataFileWriter.write_records"):
+        f = ctx.fn(q)
+        g = ctx.cfg(f)
+        for c in g.calls():
+            if not isinstance(c.ast, ast.Call) or c.id not in g.reachable():
+                continue
+            dn = dotted(c.ast.func) or (c.ast.func.attr if isinstance(c.ast.func, ast.Attribute) else "")
+            leaf = dn.split(".")[-1]
+            if leaf == "from_pylist":
+                n += 1
+                has_schema = kwarg(c.ast, "schema") is not None or len(c.ast.args) >= 2
+                ctx.ob(rid, f, "from_pylist is given the table's schema", c, has_schema,
+                       "without schema= pyarrow INFERS the column types from the values: nothing is checked against the declaration")
+            elif leaf in coercers or dn in ("pa.array", "pyarrow.array", "pa.chunked_array"):
+                n += 1
+                ctx.ob(rid, f, "no type-coercing conversion in the write path", c, False,
+                       f"`{c.text[:70]}` converts values to the declared type instead of rejecting a value of another type: the "
+                       "append is accepted and later scans return an altered value")
+    if n == 0:
+        raise AnalysisError("no record conversion found in the write path")
 
 
 def handles_fresh(ctx: Ctx, rid: str = "C11.R7") -> None:
